@@ -1,0 +1,17 @@
+#ifndef BXDECAY0_W184LOW_H
+#define BXDECAY0_W184LOW_H
+
+namespace bxdecay0 {
+
+  class i_random;
+  class event;
+
+  void W184low(i_random & prng_, event & event_, const int levelkev_);
+
+} // end of namespace bxdecay0
+
+#endif // BXDECAY0_W184LOW_H
+
+// Local Variables: --
+// mode: c++ --
+// End: --
